@@ -7,11 +7,11 @@ From TV Require Import Common.PySlice Common.PyList Common.Harness C05.Normalize
 Import ListNotations.
 Local Open Scope Z_scope.
 
-(* The whole law (all 9 clauses) holds at every step of every history on a TraitList in which no integer argument of
-   insert / pop / *= is an object with __index__ only ([xfree]; finding F26, refuted below without that hypothesis). *)
+(* The whole law (all 9 clauses) holds at every step of every history on a TraitList (integer arguments may be index-like
+   objects: F26 was repaired by commit 40e8e0f, the hypothesis that excluded them is gone). *)
 Theorem law_holds_on_every_history :
   forall (vld : Z -> option Z) (ops : list op) (l : list Z) (i : Z),
-    xfree ops = true -> law_hist vld i l (run (tl_step vld) l ops) = [].
+    law_hist vld i l (run (tl_step vld) l ops) = [].
 Proof. exact run_law. Qed.
 Print Assumptions law_holds_on_every_history.
 
@@ -19,7 +19,7 @@ Print Assumptions law_holds_on_every_history.
    refused with TraitError, leaving the list alone and notifying nobody. *)
 Theorem law_holds_on_every_history_of_a_list_trait :
   forall (vld : Z -> option Z) (minlen : Z) (maxlen : option Z) (ops : list op) (l : list Z) (i : Z),
-    xfree ops = true -> law_hist_tlo vld i l (run (tlo_step vld minlen maxlen) l ops) = [].
+    law_hist_tlo vld i l (run (tlo_step vld minlen maxlen) l ops) = [].
 Proof. exact run_law_tlo. Qed.
 Print Assumptions law_holds_on_every_history_of_a_list_trait.
 
@@ -31,7 +31,7 @@ Proof. exact step_replay. Qed.
 Print Assumptions replay_law.
 
 Theorem refines_list :
-  forall (vld : Z -> option Z) (l : list Z) (o : op), xkey o = false ->
+  forall (vld : Z -> option Z) (l : list Z) (o : op),
     let ob := tl_step vld l o in
     let sr := builtin vld l o in
     outcome_ok (o_out ob) sr = true /\
@@ -42,7 +42,7 @@ Print Assumptions refines_list.
 
 (* ... and over whole histories: the contents after every step are those of the built-in list *)
 Theorem refines_list_on_histories :
-  forall (vld : Z -> option Z) (ops : list op) (l : list Z), xfree ops = true ->
+  forall (vld : Z -> option Z) (ops : list op) (l : list Z),
     map (fun p => o_after (snd p)) (run (tl_step vld) l ops) = pylist_run vld l ops.
 Proof. exact run_refines_pylist. Qed.
 Print Assumptions refines_list_on_histories.
@@ -88,29 +88,17 @@ Print Assumptions noop_event_is_identity.
 
 (* single steps of a TraitListObject *)
 Theorem list_trait_step_obeys_or_refuses :
-  forall (vld : Z -> option Z) (minlen : Z) (maxlen : option Z) (l : list Z) (o : op), xkey o = false ->
+  forall (vld : Z -> option Z) (minlen : Z) (maxlen : option Z) (l : list Z) (o : op),
     law_step vld l o (tlo_step vld minlen maxlen l o) = [] \/ tlo_step vld minlen maxlen l o = raise TraitError l.
 Proof. exact tlo_step_law. Qed.
 Print Assumptions list_trait_step_obeys_or_refuses.
 
-(* F26 (known finding): insert / pop / *= compare their integer argument with < before delegating, so an object that
-   only implements __index__ -- which the built-in list accepts -- raises TypeError.  The unrestricted law is false of
-   the model that follows the code ... *)
-Theorem index_object_arguments_refuted :
-  law_step (vld_of VAll) [1] (InsertX 0 5) (tl_step (vld_of VAll) [1] (InsertX 0 5)) = [1; 2]
-  /\ law_step (vld_of VAll) [1; 2] (PopX 0) (tl_step (vld_of VAll) [1; 2] (PopX 0)) = [1; 2; 9]
-  /\ law_step (vld_of VAll) [1] (ImulX 2) (tl_step (vld_of VAll) [1] (ImulX 2)) = [1; 2].
-Proof. exact index_object_witness. Qed.
-Print Assumptions index_object_arguments_refuted.
-
-(* ... and nothing else can fail, and for those operations only the comparison with the built-in list
-   (outcome class 1, contents 2, returned value 9): they still leave the list untouched and notify nobody
-   (failing_op_untouched, one_event_per_change, replay_law hold of every operation) *)
-Theorem only_index_object_arguments_can_fail :
-  forall (vld : Z -> option Z) (l : list Z) (o : op) (c : Z),
-    In c (law_step vld l o (tl_step vld l o)) -> xkey o = true /\ (c = 1 \/ c = 2 \/ c = 9).
-Proof. exact law_codes_of_a_step. Qed.
-Print Assumptions only_index_object_arguments_can_fail.
+(* F26 (repaired by 40e8e0f): insert / pop / *= convert an index-like argument with operator.index first, as the built-in
+   list does: the operation with the object is the operation with the int (and obeys the whole law, above) *)
+Theorem index_like_arguments_behave_as_ints :
+  forall (vld : Z -> option Z) (l : list Z) (o : op), tl_step vld l o = tl_step vld l (deX o).
+Proof. exact index_like_is_int. Qed.
+Print Assumptions index_like_arguments_behave_as_ints.
 
 (* copies: copy.copy / copy.deepcopy / pickle of a TraitList: the same values (a pickle round trip creates new
    objects: the same values up to identity, [vpart]) *)
@@ -123,7 +111,7 @@ Print Assumptions copy_keeps_contents.
 
 Theorem law_holds_on_every_history_of_a_copy :
   forall (vld : Z -> option Z) (k : copykind) (l l' : list Z),
-    tl_copy vld k l = Ok l' -> forall ops i, xfree ops = true -> law_hist vld i l' (run (tl_step vld) l' ops) = [].
+    tl_copy vld k l = Ok l' -> forall ops i, law_hist vld i l' (run (tl_step vld) l' ops) = [].
 Proof. exact law_on_a_copy. Qed.
 Print Assumptions law_holds_on_every_history_of_a_copy.
 
@@ -142,6 +130,12 @@ Example reverse_of_equal_but_distinct_objects :
   /\ replay l (I 0, [1301; 2301], [2301; 1301]) = Some (o_after ob)
   /\ o_events (tl_step (vld_of VAll) l (Remove 1)) = [(I 0, [1301], [])].
 Proof. vm_compute. repeat split; reflexivity. Qed.
+
+Example index_like_arguments_nontrivial :
+  let h := run (tl_step (vld_of VCInt)) [1; 2] [InsertX 0 105; PopX (-1); ImulX 2; InsertX 9 200; PopX 7] in
+  map (fun p => o_after (snd p)) h = [[5; 1; 2]; [5; 1]; [5; 1; 5; 1]; [5; 1; 5; 1]; [5; 1; 5; 1]]
+  /\ map (fun p => o_out (snd p)) h = [Ok tt; Ok tt; Ok tt; Raise TraitError; Raise IndexError].
+Proof. vm_compute. split; reflexivity. Qed.
 
 (* Non-vacuity: a history with a converting validator in which extended and reversed
    slices are assigned and deleted, an operation fails, and a no-op event is emitted. *)
